@@ -31,7 +31,7 @@ COUNTS = {'quick': 220, 'thorough': 6000}
 BUDGET = {'quick': 110, 'thorough': 1500}
 TIMEOUT = 240
 SHRINK_LISTS = [['ops']]
-EXPECTED_PROBES = ['coeff_checked', 'alter', 'group_alter', 'alter_vin', 'set', 'reset', 'export_json', 'export_xlsx', 'reload',
+EXPECTED_PROBES = ['set_alter_same', 'coeff_checked', 'alter', 'group_alter', 'alter_vin', 'set', 'reset', 'export_json', 'export_xlsx', 'reload',
                    'time_const_altered', 'shared_time_const_altered', 'residual_effect_checked', 'non_unit_bases', 'export_after_earlier_export']
 RULE = ('plan = (case, seeded base scaling, seeded op history over three lifecycle phases); non-trivial = at least one alteration '
         'followed by an observation (coefficient check, export, residual, time constant); distinct = (case, op-kind sequence, base scaling)')
@@ -61,7 +61,7 @@ def elaborate(stub):
     case = r.choice(CASES)
     o = stream(seed, 'ops')
     ops = []
-    phase_ops = ['alter', 'alter', 'alter', 'group_alter', 'alter_vin', 'set', 'export_json', 'export_xlsx', 'reload', 'check']
+    phase_ops = ['alter', 'alter', 'alter', 'group_alter', 'alter_vin', 'set', 'set_alter_same', 'export_json', 'export_xlsx', 'reload', 'check']
     for phase in ('setup', 'pflow', 'tds'):
         if phase == 'pflow':
             ops.append({'op': 'pflow'})
@@ -268,7 +268,7 @@ def execute(plan):
             k = op['op']
             kinds.append(k)
             where = 'op %d %s' % (oi, k)
-            if k in ('alter', 'group_alter', 'alter_vin', 'set'):
+            if k in ('alter', 'group_alter', 'alter_vin', 'set', 'set_alter_same'):
                 if not targets:
                     continue
                 name, pn = targets[int(op['pick'] * len(targets)) % len(targets)]
@@ -304,6 +304,19 @@ def execute(plan):
                         ref.vin[(name, pn)][uid] = new
                         ref.set_marks.discard((name, pn, uid))
                         altered.append((name, pn, uid))
+                    elif k == 'set_alter_same':
+                        # the value in effect is changed directly (set), then the same value is given through the alteration
+                        # call: both representations must end up at that value although nothing changes for `v`
+                        co = ref.coeff(mdl)
+                        kk = float(ref.k_of(mdl, p, co)[uid])
+                        target_v = float(np.asarray(p.v)[uid]) * op['factor']
+                        mdl.set(pn, idx, 'v', target_v)
+                        ref.set_marks.add((name, pn, uid))
+                        if kk != 0 and np.isfinite(kk):
+                            mdl.alter(pn, idx, target_v / kk)
+                            ref.vin[(name, pn)][uid] = target_v / kk
+                            ref.set_marks.discard((name, pn, uid))
+                            altered.append((name, pn, uid))
                     else:
                         mdl.set(pn, idx, 'v', float(np.asarray(p.v)[uid]) * op['factor'])
                         ref.set_marks.add((name, pn, uid))
